@@ -20,11 +20,12 @@ func c13ops() int {
 }
 
 // c13repeat runs a Choice-selected sequence of Len / MarshalBinary on m and asserts agreement.
-func c13repeat(m util.Message) {
+func c13repeat(m util.Message) { c13repeatN(m, c13ops()) }
+
+func c13repeatN(m util.Message, n int) {
 	var firstLen uint16
 	var firstBytes []byte
 	haveLen, haveBytes := false, false
-	n := c13ops()
 	for i := 0; i < n; i++ {
 		if vr.Choice("op", 2) == 0 {
 			l := m.Len()
@@ -75,7 +76,9 @@ func VerifC13_LearnSpec() { c13repeat(buildLearnSpec()) }
 func VerifC13_Message() {
 	k := vr.Choice("kind", nMsgKinds)
 	vr.Tag("kind", msgKindNames[k])
-	c13repeat(buildMessage(k))
+	// whole messages: every sequence of 2 operations (quick) — the richer 3/4-operation
+	// sequences run on the element kinds above and on the wrapped messages below
+	c13repeatN(buildMessage(k), c13ops()-1)
 }
 
 // the same child embedded via the bundle and vendor wrappers: wrapper and child interleaved
@@ -87,7 +90,7 @@ func VerifC13_BundleWrapped() {
 	b0, _ := m.MarshalBinary()
 	c0 := make([]byte, len(b0))
 	copy(c0, b0)
-	c13repeat(v)
+	c13repeatN(v, c13ops()-1)
 	b1, _ := m.MarshalBinary()
 	vr.Assert(vr.BytesEq(c0, b1), "child-encoding-unchanged-by-wrapper")
 }
